@@ -718,7 +718,23 @@ func c03Exec(in c03Input) {
 			rootObj = &c03USchema{}
 		}
 		root := ggql.NewRoot(rootObj)
-		if err := root.ParseString(c03UnboundSDL); err != nil {
+		if r.Intn(8) == 0 {
+			// an application that never parses a schema document: all its types come through the Go API (built here by
+			// another root that did parse them)
+			tmp := ggql.NewRoot(nil)
+			if err := tmp.ParseString(c03UnboundSDL); err != nil {
+				panic(err)
+			}
+			var ts []ggql.Type
+			for _, t := range tmp.Types() {
+				if _, isSchema := t.(*ggql.Schema); !isSchema && !t.Core() && t.Name() != "Time" {
+					ts = append(ts, t)
+				}
+			}
+			if err := root.AddTypes(ts...); err != nil {
+				panic(err)
+			}
+		} else if err := root.ParseString(c03UnboundSDL); err != nil {
 			panic(err)
 		}
 		if r.Intn(2) == 0 {
